@@ -1,31 +1,68 @@
 package trie
 
-// Soundness: proof of a present key must not verify for a different (absent) key Z.
+// Completeness + soundness on a trie with keys of different lengths (one a prefix of another, two
+// sharing an extension): the proof of every present key verifies; verified against an arbitrary
+// symbolic key Z of length 0..3 it verifies only if Z is one of the present keys.
 func Verif_C04_sound() {
 	tr := verifNewTrie()
-	k1 := []byte{0x11, 0xAA}
-	k2 := []byte{0x22, 0xAA}
-	_ = tr.Update(k1, []byte("v1"))
-	_ = tr.Update(k2, []byte("v2"))
-	proof, err := tr.GetProof(k1)
-	verifAssert(err == nil, "proof exists")
-	z := verifBytes("z", 2)
-	ok, _ := tr.VerifyProof(z, proof)
-	if ok {
-		verifAssert(eqBytes(z, k1) || eqBytes(z, k2), "proof verified for a key that is not in the trie")
+	keys := [][]byte{{0x11, 0x22}, {0x11, 0xAA}, {0x22}, {0x11}}
+	for i, k := range keys {
+		_ = tr.Update(k, []byte{'v', byte('0' + i)})
+	}
+	if verifBool("committed") {
+		_ = tr.Commit()
+	}
+	i := verifChoice("provenKey", len(keys))
+	proof, err := tr.GetProof(keys[i])
+	verifAssert(err == nil, "proof exists for a present key")
+	ok, err := tr.VerifyProof(keys[i], proof)
+	verifAssert(err == nil && ok, "the proof of a present key verifies")
+	z := verifBytes("z", verifChoice("zlen", 4))
+	var okz bool
+	verifNoPanic(func() { okz, _ = tr.VerifyProof(z, proof) }, "VerifyProof never crashes")
+	if okz {
+		present := false
+		for _, k := range keys {
+			present = present || eqBytes(z, k)
+		}
+		verifAssert(present, "proof verified for a key that is not in the trie")
 		verifReach("verified")
 	} else {
 		verifReach("rejected")
 	}
 }
 
-// Crash freedom: any key length 0..3 against a real proof.
+// Absent keys: no proof-like list taken from the trie verifies for a key that was never inserted,
+// also after deleting a key.
+func Verif_C04_deleted() {
+	tr := verifNewTrie()
+	a, b, c := []byte{0x11, 0x22}, []byte{0x11, 0xAA}, []byte{0x22, 0x22}
+	_ = tr.Update(a, []byte("va"))
+	_ = tr.Update(b, []byte("vb"))
+	_ = tr.Update(c, []byte("vc"))
+	oldProof, _ := tr.GetProof(b)
+	_ = tr.Delete(b)
+	ok, _ := tr.VerifyProof(b, oldProof)
+	verifAssert(!ok, "the old proof of a deleted key does not verify against the new root")
+	newProof, _ := tr.GetProof(a)
+	z := verifBytes("z", 2)
+	ok, _ = tr.VerifyProof(z, newProof)
+	if ok {
+		verifAssert(eqBytes(z, a) || eqBytes(z, c), "after a delete only the remaining keys verify")
+	}
+	verifReach("end")
+}
+
+// Crash freedom on forged proofs: arbitrary bytes as proof nodes, arbitrary key.
 func Verif_C04_nopanic() {
 	tr := verifNewTrie()
 	_ = tr.Update([]byte{0x11, 0xAA, 0xAA}, []byte("v1"))
 	_ = tr.Update([]byte{0x22, 0xAA, 0xAA}, []byte("v2"))
 	proof, _ := tr.GetProof([]byte{0x11, 0xAA, 0xAA})
 	z := verifBytes("z", verifChoice("zlen", 4))
-	_, _ = tr.VerifyProof(z, proof)
+	verifNoPanic(func() { _, _ = tr.VerifyProof(z, proof) }, "VerifyProof never crashes on a real proof")
+	// forged: the proof nodes are replaced by arbitrary short byte strings
+	forged := [][]byte{verifBytes("f0", verifParam("forgedLen")), verifBytes("f1", 2)}
+	verifNoPanic(func() { _, _ = tr.VerifyProof(z, forged) }, "VerifyProof never crashes on forged proof bytes")
 	verifReach("end")
 }
